@@ -167,6 +167,9 @@ const NA_BASELINE: &str = "none searched: this property has no fault, schedule o
 #[derive(Clone, Debug, Serialize, Deserialize)]
 pub enum Case11 {
     RoundTrip(HideCase),
+    /// hide(first), then other traffic on the same thread (hides and reveals
+    /// under other, related secrets), then reveal of the first
+    Interleaved { first: HideCase, between: Vec<HideCase> },
     /// hide(h) = h for hidden h; reveal(a) = Ok(a) for non-hidden a
     Identity {
         avp: SpecAvp,
@@ -224,7 +227,28 @@ fn exec_c11(case: &Case11, obs: &mut Obs) -> Result<(), Failure> {
                 }
             }
         }
-        Case11::RoundTrip(c) => {
+        Case11::Interleaved { first, between } => {
+            obs.count("probe:other-tunnels-between-hide-and-reveal");
+            on_fresh_thread(|| round_trip(first, between, obs)).map_err(|mut f| {
+                if !between.is_empty() {
+                    f.class = format!("interleaved:{}", f.class);
+                    f.detail = format!(
+                        "with {} hide/reveal call(s) under other secrets ({:?} octets) between hide and reveal: {}",
+                        between.len(),
+                        between.iter().map(|b| b.secret.len()).collect::<Vec<_>>(),
+                        f.detail
+                    );
+                }
+                f
+            })
+        }
+        Case11::RoundTrip(c) => round_trip(c, &[], obs),
+    }
+}
+
+fn round_trip(c: &HideCase, between: &[HideCase], obs: &mut Obs) -> Result<(), Failure> {
+    {
+        {
             obs.steps += 2;
             let h = match real_hide(c) {
                 None => return Ok(()),
@@ -265,6 +289,11 @@ fn exec_c11(case: &Case11, obs: &mut Obs) -> Result<(), Failure> {
             } else {
                 h
             };
+            for b in between {
+                if let Some(Ok(hb)) = real_hide(b) {
+                    let _ = real_reveal(hb, &b.secret, b.rv);
+                }
+            }
             match real_reveal(h_for_reveal, &c.secret, c.rv) {
                 Ok(Ok(x)) if from_crate_avp(&x) == original => Ok(()),
                 Ok(other) => Err(Failure::new(
@@ -320,6 +349,28 @@ impl Scenario for C11 {
             }
             ctx.check::<C11>(&case);
         }
+        // a round trip with other tunnels' traffic in between
+        {
+            let n = wl.urange(2, 4);
+            let secrets = related_secrets(&mut wl, n);
+            let mut sw2 = sw.clone();
+            sw2.size = SizeRegime::Typical;
+            let mut cases: Vec<HideCase> = Vec::new();
+            for s in secrets {
+                let attr = *wl.pick(&ALL_ATTRS);
+                let mut hc = gen_hide_case(&mut wl, &sw2, attr, &mut sm);
+                hc.secret = s;
+                if blocks_of(&hc) < 2 {
+                    let room = 1008usize.saturating_sub(2 + spec_payload(&hc.avp).len());
+                    let ll = wl.urange(16, 48).min(room);
+                    hc.lp = wl.bytes(ll);
+                }
+                cases.push(hc);
+            }
+            // the first secret is used again by the reveal at the end
+            let first = cases.remove(0);
+            ctx.check::<C11>(&Case11::Interleaved { first, between: cases });
+        }
         let rvb = wl.bytes(4);
         let sl = wl.urange(0, 20);
         let ident = if wl.bool() {
@@ -339,6 +390,18 @@ impl Scenario for C11 {
     fn shrink(case: &Case11) -> Vec<Case11> {
         match case {
             Case11::RoundTrip(c) => shrink_hide(c).into_iter().map(Case11::RoundTrip).collect(),
+            Case11::Interleaved { first, between } => {
+                let mut out = Vec::new();
+                for i in 0..between.len() {
+                    let mut b = between.clone();
+                    b.remove(i);
+                    out.push(Case11::Interleaved { first: first.clone(), between: b });
+                }
+                for f in shrink_hide(first).into_iter().take(12) {
+                    out.push(Case11::Interleaved { first: f, between: between.clone() });
+                }
+                out
+            }
             Case11::Identity { .. } => Vec::new(),
         }
     }
@@ -376,6 +439,31 @@ pub enum Case12 {
 /// Secrets related to one base secret the way a cache keyed too coarsely
 /// would confuse them.
 pub fn related_secrets(rng: &mut Rng, n: usize) -> Vec<Vec<u8>> {
+    if rng.chance(1, 4) {
+        // two different secrets of one length that a 32-bit fingerprint
+        // (FNV, djb2, CRC-32, Adler-32, Murmur3, ...) cannot tell apart
+        let (_, a, b) = *rng.pick(crate::collisions::COLLIDING_SECRETS);
+        let mut out = Vec::new();
+        for i in 0..n {
+            out.push(match (i + rng.below(2) as usize) % 3 {
+                0 => a.to_vec(),
+                1 => b.to_vec(),
+                _ => {
+                    let k = rng.urange(1, 40);
+                    rng.bytes(k)
+                }
+            });
+        }
+        if n >= 2 {
+            out[0] = a.to_vec();
+            out[n - 1] = b.to_vec();
+            if n >= 3 && rng.bool() {
+                out[n - 1] = a.to_vec();
+                out[n - 2] = b.to_vec();
+            }
+        }
+        return out;
+    }
     let base_len = match rng.below(4) {
         0 => *rng.pick(&[1usize, 2, 15, 16, 17, 32]),
         1 => *rng.pick(&[55usize, 56, 63, 64, 65, 72]),
